@@ -131,6 +131,10 @@ pub fn worker(inp: &str, out: &std::path::Path) {
             rect_case(rest, emit);
             return;
         }
+        // macro nesting families (harness/src/c03nest.rs): the nesting oracle first, on a big-stack thread
+        if crate::c03nest::is_nest(line) && !crate::c03nest::nest_case(line, emit) {
+            return;
+        }
         run_case(line, slow_ms(), emit);
     });
 }
@@ -482,6 +486,11 @@ pub fn run(run: &mut Run, seed: u64, thorough: bool, replay: Option<&str>, corpu
             cases.push(case_line(Emu::Ansi(0), 80, 25, &toks));
             cases.push(case_line(Emu::Ansi(0), 132, 60, &toks));
         }
+        // every entry point of macro replay (CSI handler, in-DCS invocation, wrappers) and of the other bounded loops
+        // (own generator state: the draws of the families above and below stay what they were)
+        let mut nest_rng = Rng::new(seed ^ 0x6e65_7374);
+        cases.extend(crate::c03nest::nest_cases(&mut nest_rng, thorough));
+        cases.extend(crate::c03nest::entry_cases());
         for toks in resize_then_repeat_cases(&mut rng, thorough) {
             cases.push(case_line(Emu::Ansi(0), 80, 25, &toks));
         }
@@ -566,13 +575,18 @@ pub fn run(run: &mut Run, seed: u64, thorough: bool, replay: Option<&str>, corpu
         cases.extend(crate::loadercost::icyc_cases(&mut rng, thorough));
         cases.extend(crate::loadercost::tdf_cases(thorough));
     }
+    // the generated nesting / entry-point cases, for inspection (`<exe> c03 --worker <this file> <out>` replays them)
+    let _ = std::fs::write(dir.join("nest_cases.txt"), cases.iter().filter(|c| crate::c03nest::family_of(c).is_some()).cloned().collect::<Vec<_>>().join("\n"));
     std::env::set_var("VERIF_WORKER_VMEM_KB", "6000000");
     // the loader and rectangle cases are cheap: they get their own worker chain (in parallel with the stream cases) whose
     // no-progress timeout is 8 s (the per-case "slow" threshold is 3 s), so a loop that never ends costs 8 s, not 20 s
     // (streams whose token is a rectangle command go with them: one family for the breaker)
     let is_light = |c: &String| c.starts_with('@') || c.starts_with("rect ") || ["CSI$x", "CSI$z", "CSI${", "CSI*y", "CSI$w", "RSZ:"].iter().any(|l| c.contains(l));
     let (light, heavy): (Vec<String>, Vec<String>) = cases.iter().cloned().partition(|c| is_light(c));
-    let cases: Vec<String> = heavy.iter().chain(light.iter()).cloned().collect();
+    // the macro nesting cases get their own chain too: on a tree that lost the nesting limit every one of them costs a dead or
+    // timed-out child (the recursion eats the 2 GiB stack), so the chain gives up after 3 dead children (`skipped`)
+    let (nest, heavy): (Vec<String>, Vec<String>) = heavy.into_iter().partition(|c| crate::c03nest::is_nest(c));
+    let cases: Vec<String> = heavy.iter().chain(nest.iter()).chain(light.iter()).cloned().collect();
     let results = if replay.is_some() || light.is_empty() {
         run_in_workers("c03", &dir, &cases, 20)
     } else {
@@ -580,7 +594,11 @@ pub fn run(run: &mut Run, seed: u64, thorough: bool, replay: Option<&str>, corpu
         std::fs::create_dir_all(&d2).unwrap();
         let l2 = light.clone();
         let h = std::thread::spawn(move || crate::fontpal::run_in_workers_breaker("c03", &d2, &l2, 8, 4));
+        let d3 = dir.join("nest");
+        std::fs::create_dir_all(&d3).unwrap();
+        // (after the heavy chain, not beside it: two chains in parallel are what the no-progress timeouts were tuned for)
         let mut r = run_in_workers("c03", &dir, &heavy, 20);
+        r.extend(run_in_workers_capped("c03", &d3, &nest, 20, 3));
         r.extend(h.join().unwrap());
         r
     };
@@ -591,6 +609,9 @@ pub fn run(run: &mut Run, seed: u64, thorough: bool, replay: Option<&str>, corpu
             case.replacen(' ', "_", 1)
         } else if first == "file" || first == "sixel" || first == "rect" || first.starts_with('@') {
             case.replace(' ', "_")
+        } else if crate::c03nest::is_nest(case) {
+            // the labels carry the bound of the nesting oracle: they are part of the replay input
+            case.split_whitespace().take(5).collect::<Vec<_>>().join("_")
         } else {
             case.split_whitespace().take(4).collect::<Vec<_>>().join("_")
         };
@@ -605,7 +626,13 @@ pub fn run(run: &mut Run, seed: u64, thorough: bool, replay: Option<&str>, corpu
             first.clone()
         };
         run.count(&format!("kind:{}", fam));
+        if let Some(f) = crate::c03nest::family_of(case) {
+            run.count(&f);
+        }
         match res {
+            Err(reason) if reason == "skipped" && crate::c03nest::is_nest(case) => {
+                run.count("skipped:nesting(3 children of the nesting chain died before)");
+            }
             Err(reason) => {
                 let label = if first == "sixel" {
                     "payload".to_string()
@@ -647,7 +674,9 @@ pub fn run(run: &mut Run, seed: u64, thorough: bool, replay: Option<&str>, corpu
                             let ms: u128 = p[3].parse().unwrap_or(0);
                             let cells: u64 = p[4].parse().unwrap_or(0);
                             if ms >= slow_ms() || cells > 8_000_000 {
-                                run.oracle_fail(&format!("file:{}:slow-or-huge", p[1]), &short, &format!("loader {} took {} ms, allocated {} cells", p[1], ms, cells));
+                                // two keys, so that a recorded allocation finding cannot hide a loop that is slow without allocating (and vice versa)
+                                let kind = if cells > 8_000_000 { "huge" } else { "slow" };
+                                run.oracle_fail(&format!("file:{}:{}", p[1], kind), &short, &format!("loader {} took {} ms, allocated {} cells", p[1], ms, cells));
                             }
                             run.evaluations += 1;
                             run.nontrivial(fnv(case.bytes().map(|b| b as u64)));
@@ -690,6 +719,17 @@ pub fn run(run: &mut Run, seed: u64, thorough: bool, replay: Option<&str>, corpu
                             run.evaluations += 1;
                             run.nontrivial(fnv(case.bytes().map(|b| b as u64)));
                         }
+                        Some(&"N") => {
+                            // N <markers> <bound> <ms> <MAX_MACRO_DEPTH>: one marker (group) per nesting level of macro replay
+                            let marks: usize = p[1].parse().unwrap_or(0);
+                            let bound: usize = p[2].parse().unwrap_or(0);
+                            run.count(if marks == bound { "nest-depth:at-the-limit" } else if marks == 0 { "nest-depth:0" } else { "nest-depth:below-the-limit" });
+                            if marks > bound {
+                                run.oracle_fail("ansi:macro-nesting", &short, &format!("macro replay nested beyond MAX_MACRO_DEPTH = {}: {} markers printed (one group per level), at most {} allowed; {} ms on a 2 GiB stack", p[4], marks, bound, p[3]));
+                                run.evaluations += 1;
+                            }
+                        }
+                        Some(&"NSKIP") => run.count("skipped:nesting(2 streams of this worker nested beyond the limit before)"),
                         Some(&"SKIP") => run.count("skipped:breaker(4 runaway or slow cases of this family before)"),
                         Some(&"P") => run.count("panic(C01)"),
                         Some(&"S") => {
